@@ -625,3 +625,16 @@ func ResultOfCall(v ssa.Value, call *ssa.Call, idx int) bool {
 	}
 	return true
 }
+
+// ReturnValues gives the values result #idx of return r may carry. With deferred calls
+// go/ssa spills results into cells and returns a load; the reaching stores are followed.
+func ReturnValues(r *ssa.Return, idx int) []ssa.Value {
+	if idx < 0 {
+		idx = len(r.Results) + idx
+	}
+	v := r.Results[idx]
+	if defs := ReachingDefs(v); len(defs) > 0 {
+		return defs
+	}
+	return []ssa.Value{v}
+}
